@@ -345,6 +345,61 @@ pub fn check_csr_case(case: &CsrCase, info: &mut CaseInfo) -> Result<(), String>
 	Ok(())
 }
 
+/// The shape of a parameter object as far as the profile predicates care (which extension-bearing
+/// fields are set, CA or not, empty subject or not); values are placeholders.
+fn shape_of(p: &rcgen::CertificateParams) -> CertSpec {
+	let mut spec = CertSpec::minimal();
+	spec.serial = Some(Hex(vec![1]));
+	spec.sans = p.subject_alt_names.iter().map(|_| SanSpec::Dns(String::new())).collect();
+	spec.name_constraints = p.name_constraints.as_ref().map(|n| NcSpec {
+		permitted: n.permitted_subtrees.iter().map(|_| SubtreeSpec::Dns(String::new())).collect(),
+		excluded: n.excluded_subtrees.iter().map(|_| SubtreeSpec::Dns(String::new())).collect(),
+	});
+	spec.is_ca = match p.is_ca {
+		rcgen::IsCa::NoCa => IsCaSpec::NoCa,
+		rcgen::IsCa::ExplicitNoCa => IsCaSpec::ExplicitNoCa,
+		rcgen::IsCa::Ca(rcgen::BasicConstraints::Unconstrained) => IsCaSpec::CaUnconstrained,
+		rcgen::IsCa::Ca(rcgen::BasicConstraints::Constrained(n)) => IsCaSpec::CaConstrained(n),
+	};
+	spec.use_aki = p.use_authority_key_identifier_extension;
+	spec.custom_exts = vec![];
+	spec.dn = if p.distinguished_name.iter().next().is_none() { DnSpec(vec![]) } else { CertSpec::minimal().dn };
+	spec
+}
+
+/// A request (rcgen-made or foreign) is parsed, the CA adjusts the parameters the way CAs do (makes
+/// it an explicit end entity or a CA, asks for an AKI) and issues: the certificate must follow the
+/// profile, in particular carry no extension twice.
+#[derive(Clone, Debug, Serialize, Deserialize, PartialEq, Eq, Hash)]
+pub struct CsrIssuedCase {
+	pub csr: crate::props::c06::ForeignCsr,
+	pub is_ca: IsCaSpec,
+	pub use_aki: bool,
+	pub kid: KidSpec,
+}
+
+pub fn check_csr_issued(c: &CsrIssuedCase, info: &mut CaseInfo) -> Result<(), String> {
+	let bytes = crate::props::c06::forge_foreign(&c.csr)?;
+	let Ok(mut parsed) = rcgen::CertificateSigningRequestParams::from_der(&bytes.into()) else {
+		info.class("request-refused");
+		return Ok(());
+	};
+	info.nontrivial = true;
+	info.class(format!("issued-as:{}", match c.is_ca { IsCaSpec::NoCa => "as-requested", IsCaSpec::ExplicitNoCa => "explicit-end-entity", _ => "ca" }));
+	parsed.params.is_ca = crate::mk::is_ca(c.is_ca);
+	parsed.params.use_authority_key_identifier_extension = c.use_aki;
+	parsed.params.key_identifier_method = crate::mk::kid(&c.kid)?;
+	parsed.params.serial_number = Some(rcgen::SerialNumber::from_slice(&[0x2a]));
+	let spec = shape_of(&parsed.params);
+	let ik = crate::keys::make_key(&KeySpec { alg: KeyAlg::Ed25519, idx: 2, rsa_hash: RsaHash::Sha256, remote: !cfg!(feature = "crypto") })?;
+	let mut ispec = CertSpec::minimal();
+	ispec.is_ca = IsCaSpec::CaUnconstrained;
+	let ic = crate::mk::cert_params(&ispec)?.self_signed(&ik).map_err(|e| e.to_string())?;
+	let cert = parsed.signed_by(&ic, &ik).map_err(|e| format!("issuing from an accepted request failed: {e}"))?;
+	let (d, _) = decode_cert(cert.der())?;
+	check_cert_profile(&d, &spec).map_err(|e| format!("certificate issued from an accepted request: {e}"))
+}
+
 /// Parameters imported from a foreign CA certificate (whose extensions may carry any criticality)
 /// and used to issue: the public fields of such parameters are conformant, so the output must be.
 #[derive(Clone, Debug, Serialize, Deserialize, PartialEq, Eq, Hash)]
@@ -366,24 +421,7 @@ pub fn check_imported(c: &ImportedCase, info: &mut CaseInfo) -> Result<(), Strin
 	info.nontrivial = true;
 	info.class(if c.flip != 0 { "foreign-criticality:unusual" } else { "foreign-criticality:usual" });
 	// what the imported parameters say (their public fields), as a spec for the predicates
-	let mut spec = c.ca.spec.clone();
-	spec.serial = Some(Hex(vec![1]));
-	spec.sans = imported.subject_alt_names.iter().map(|_| SanSpec::Dns(String::new())).collect();
-	spec.name_constraints = imported.name_constraints.as_ref().map(|n| NcSpec {
-		permitted: n.permitted_subtrees.iter().map(|_| SubtreeSpec::Dns(String::new())).collect(),
-		excluded: n.excluded_subtrees.iter().map(|_| SubtreeSpec::Dns(String::new())).collect(),
-	});
-	spec.is_ca = match imported.is_ca {
-		rcgen::IsCa::NoCa => IsCaSpec::NoCa,
-		rcgen::IsCa::ExplicitNoCa => IsCaSpec::ExplicitNoCa,
-		rcgen::IsCa::Ca(rcgen::BasicConstraints::Unconstrained) => IsCaSpec::CaUnconstrained,
-		rcgen::IsCa::Ca(rcgen::BasicConstraints::Constrained(n)) => IsCaSpec::CaConstrained(n),
-	};
-	spec.use_aki = imported.use_authority_key_identifier_extension;
-	spec.custom_exts = vec![];
-	if imported.distinguished_name.iter().next().is_none() {
-		spec.dn = DnSpec(vec![]);
-	}
+	let spec = shape_of(&imported);
 	let key = crate::keys::make_key(&c.ca.key)?;
 	let cert = if c.self_signed {
 		imported.self_signed(&key)
@@ -414,7 +452,7 @@ fn conformant_cert_case() -> BoxedStrategy<CertCase> {
 pub fn def() -> PropertyDef {
 	PropertyDef {
 		id: "C05",
-		rule: "Profile-conformant parameter sets (explicit serials positive/non-zero/<= 20 octets, non-empty URI lists, custom OIDs distinct from standard ones) over the C02/C07/C08 spaces -> harness decoder -> predicates for each structural MUST; automatic serial explored over subject keys derived deterministically from generated seeds (Ed25519, P-256, P-384) and, exhaustively, over all 65 536 values of the two leading octets of the key digest it is cut from (32-byte opaque remote keys searched for each prefix; plus rare three-octet patterns such as 00 00 00 / 80 00 7f). Parameters imported from foreign CA certificates whose extensions carry arbitrary criticality flags are used to issue as well (their public fields are conformant, so the output must be). Each clause also requires the extension it speaks of to be present when the parameters make the certificate a CA / give it alternative names / name constraints / an AKI. Non-trivial = at least one extension-bearing field (certificates), every CRL/CSR/fresh-key case; the class with SHA-256 top bit set is reported.",
+		rule: "Profile-conformant parameter sets (explicit serials positive/non-zero/<= 20 octets, non-empty URI lists, custom OIDs distinct from standard ones) over the C02/C07/C08 spaces -> harness decoder -> predicates for each structural MUST; automatic serial explored over subject keys derived deterministically from generated seeds (Ed25519, P-256, P-384) and, exhaustively, over all 65 536 values of the two leading octets of the key digest it is cut from (32-byte opaque remote keys searched for each prefix; plus rare three-octet patterns such as 00 00 00 / 80 00 7f). Parameters imported from foreign CA certificates whose extensions carry arbitrary criticality flags are used to issue as well (their public fields are conformant, so the output must be). Requests (foreign ones included) are parsed, adjusted by the issuing CA (explicit end entity / CA / AKI / key-identifier method) and issued from under the same predicates. Each clause also requires the extension it speaks of to be present when the parameters make the certificate a CA / give it alternative names / name constraints / an AKI. Non-trivial = at least one extension-bearing field (certificates), every CRL/CSR/fresh-key case; the class with SHA-256 top bit set is reported.",
 		assumptions: vec!["the harness decoder; OpenSSL EC arithmetic to derive fresh keys from seeds"],
 		subs: vec![
 			prop_sub("cert", 60_000, 800_000, conformant_cert_case, check_cert_case),
@@ -427,6 +465,11 @@ pub fn def() -> PropertyDef {
 					.prop_map(|(ca, flip, self_signed)| ImportedCase { ca, flip, self_signed })
 					.boxed()
 			}, check_imported),
+			prop_sub("csr-issued", 16_000, 200_000, || {
+				(crate::props::c06::foreign_csr_strategy(), gen::is_ca_any(), any::<bool>(), gen::kid())
+					.prop_map(|(csr, is_ca, use_aki, kid)| CsrIssuedCase { csr, is_ca, use_aki, kid })
+					.boxed()
+			}, check_csr_issued),
 			prop_sub("crl", 25_000, 300_000, || crl_case(false, true), check_crl_case),
 			prop_sub("csr", 25_000, 300_000, || csr_case(true), check_csr_case),
 		],
